@@ -56,7 +56,7 @@ package bbolt
 //@   opaque
 //@   returns (err)
 //@   props C18
-//@   ensures err == nil ==> db.datasz >= minsz
+//@   ensures err == nil ==> db.datasz >= minsz && db.datasz <= common.MaxMapSize
 //@   ensures [mapped] err == nil ==> db.data != nil && db.meta0 != nil && db.meta1 != nil && (metavalid(db.meta0) || metavalid(db.meta1)) && fresh(db.meta0) && fresh(db.meta1)
 //@   ensures [failed] err != nil ==> db.data == nil || (db.data == old(db.data) && db.meta0 == old(db.meta0) && db.meta1 == old(db.meta1))
 //@   ensures dbframe(db) && unsynced == old(unsynced) && nwrites == old(nwrites)
@@ -74,6 +74,7 @@ package bbolt
 //@   ensures [mapped] err == nil && db.rwtx.meta.pgid != old(db.rwtx.meta.pgid) ==> (db.rwtx.meta.pgid + 1) * db.pageSize <= db.datasz
 //@   ensures [errclean] err != nil ==> db.rwtx.meta.pgid == old(db.rwtx.meta.pgid)
 //@   ensures [nomap] err == nil && db.rwtx.meta.pgid == old(db.rwtx.meta.pgid) ==> db.datasz == old(db.datasz)
+//@   ensures [mapbound] err == nil && old(db.datasz) <= common.MaxMapSize ==> db.datasz <= common.MaxMapSize
 //@   ensures [mapfail] err != nil ==> db.data == nil || (db.data == old(db.data) && db.meta0 == old(db.meta0) && db.meta1 == old(db.meta1))
 //@   ensures [mapok] err == nil ==> (db.data == old(db.data) && db.meta0 == old(db.meta0) && db.meta1 == old(db.meta1)) || (db.data != nil && db.meta0 != nil && db.meta1 != nil && (metavalid(db.meta0) || metavalid(db.meta1)) && db.meta0 != db.rwtx.meta && db.meta1 != db.rwtx.meta)
 //@   ensures [same] dbframe(db) && db.rwtx.meta == old(db.rwtx.meta) && db.rwtx.meta.txid == old(db.rwtx.meta.txid) && db.rwtx.meta.magic == old(db.rwtx.meta.magic) && db.rwtx.meta.version == old(db.rwtx.meta.version) && db.rwtx.db == old(db.rwtx.db) && db.rwtx.writable == old(db.rwtx.writable) && db.rwtx.managed == old(db.rwtx.managed) && db.rwtx.root.tx == old(db.rwtx.root.tx) && unsynced == old(unsynced) && nwrites == old(nwrites)
@@ -206,7 +207,7 @@ package bbolt
 //@   returns (err)
 //@   ensures b.tx == old(b.tx) && txframe(b.tx) && unsynced == old(unsynced) && nwrites == old(nwrites)
 //@   ensures b.tx.meta.pgid >= old(b.tx.meta.pgid) && b.tx.meta.pgid <= old(b.tx.meta.pgid) + 4294967296
-//@   ensures (b.tx.meta.pgid + 1) * b.tx.db.pageSize <= b.tx.db.datasz && b.tx.db.datasz >= 0
+//@   ensures (b.tx.meta.pgid + 1) * b.tx.db.pageSize <= b.tx.db.datasz && b.tx.db.datasz >= 0 && b.tx.db.datasz <= common.MaxMapSize
 //@   ensures old(mapok(b.tx)) ==> mapok(b.tx)
 //@   ensures b.tx.db.MaxSize > 0 && b.tx.meta.pgid != old(b.tx.meta.pgid) ==> (b.tx.meta.pgid + 1) * b.tx.db.pageSize <= b.tx.db.MaxSize
 
@@ -257,12 +258,12 @@ package bbolt
 //@ func (*Tx).commitFreelist
 //@   returns (err)
 //@   props C08 C07 C01
-//@   requires tx.db != nil && tx.writable && tx.meta != nil && tx.db.freelist != nil && tx.db.rwlock.held && tx.db.pageSize >= 512 && tx.db.pageSize <= 16777216 && tx.db.rwtx == tx && (tx.meta.pgid + 1) * tx.db.pageSize <= tx.db.datasz
+//@   requires tx.db != nil && tx.writable && tx.meta != nil && tx.db.freelist != nil && tx.db.rwlock.held && tx.db.pageSize >= 512 && tx.db.pageSize <= 16777216 && tx.db.rwtx == tx && (tx.meta.pgid + 1) * tx.db.pageSize <= tx.db.datasz && tx.db.datasz <= common.MaxMapSize
 //@   requires (tx.meta.pgid + 4294967296) * tx.db.pageSize <= 2305843009213693952 && tx.db.AllocSize >= 0 && tx.db.AllocSize <= 2305843009213693952 && tx.db.datasz >= 0 && tx.db.MaxSize >= 0
 //@   requires mapok(tx)
 //@   ensures [rolledback] err != nil ==> tx.db == nil && !old(tx.db).rwlock.held && calls("(*Tx).rollback", tx) == old(calls("(*Tx).rollback", tx)) + 1
 //@   ensures [okframe] err == nil ==> txframe(tx) && mapok(tx) && tx.meta.pgid >= old(tx.meta.pgid) && tx.meta.pgid <= old(tx.meta.pgid) + 4294967296 && (tx.meta.pgid + 1) * tx.db.pageSize <= tx.db.datasz && (tx.db.MaxSize > 0 && tx.meta.pgid != old(tx.meta.pgid) ==> (tx.meta.pgid + 1) * tx.db.pageSize <= tx.db.MaxSize)
-//@   ensures [ok] err == nil ==> tx.db == old(tx.db) && calls("(*Tx).rollback", tx) == old(calls("(*Tx).rollback", tx)) && calls("freelist.Interface.Write", tx.db.freelist) == old(calls("freelist.Interface.Write", tx.db.freelist)) + 1
+//@   ensures [ok] err == nil ==> tx.db == old(tx.db) && calls("(*Tx).close", tx) == old(calls("(*Tx).close", tx)) && tx.db.datasz <= common.MaxMapSize && calls("(*Tx).rollback", tx) == old(calls("(*Tx).rollback", tx)) && calls("freelist.Interface.Write", tx.db.freelist) == old(calls("freelist.Interface.Write", tx.db.freelist)) + 1
 //@   ensures [disk] unsynced == old(unsynced) && nwrites == old(nwrites)
 
 //@ func (*Tx).write
@@ -289,7 +290,7 @@ package bbolt
 //@   requires tx.db != nil && tx.writable ==> tx.db.pageSize >= 512 && tx.db.pageSize <= 16777216 && tx.meta.magic == common.Magic && tx.meta.version == common.Version
 //@   requires tx.db != nil && tx.writable ==> (tx.meta.pgid + 8589934592) * tx.db.pageSize <= 2305843009213693952 && tx.db.AllocSize >= 0 && tx.db.AllocSize <= 2305843009213693952 && tx.db.datasz >= 0 && tx.db.MaxSize >= 0
 //@   requires tx.db != nil && tx.writable ==> mapok(tx)
-//@   requires tx.db != nil && tx.writable ==> (tx.meta.pgid + 1) * tx.db.pageSize <= tx.db.datasz
+//@   requires tx.db != nil && tx.writable ==> (tx.meta.pgid + 1) * tx.db.pageSize <= tx.db.datasz && tx.db.datasz <= common.MaxMapSize
 //@   requires tx.db != nil && tx.writable && !tx.db.NoSync ==> unsynced == 0
 //@   panics when tx.db != nil && tx.writable && tx.db.StrictMode
 //@   skip writeMeta.panics0 because root page and freelist page below the high-water mark is a tree/allocator invariant (A-tree, A-cow): not derivable from the contracts in reach
